@@ -709,3 +709,44 @@ func (r *paginatedRoles) isSortCall(tc *TermCtx, call *ssa.Call) bool {
 	}
 	return false
 }
+
+// shared runs the rule function of another property inside the current check and keeps only the obligations
+// that concern this property (keep decides by obligation; floors of the foreign rule are not imported — they
+// are that property's own). The obligations keep their home rule id, so a report reads e.g.
+// `FAIL C14-D2:DenseStore.Copy/field/bins` under `VIOLATION property=C04`.
+func (c *Ctx) shared(run func(), keep func(o *Obligation) bool) {
+	outer := c.R
+	tmp := newReport(outer.Property)
+	c.R = tmp
+	run()
+	c.R = outer
+	n := 0
+	for _, o := range tmp.Obls {
+		if strings.Contains(o.Key, ":floor/") || !keep(o) {
+			continue
+		}
+		// re-add under its bare key (add prefixes the rule again)
+		o.Key = strings.TrimPrefix(o.Key, o.Rule+":")
+		outer.add(o)
+		n++
+	}
+	for k, v := range tmp.Analysed {
+		outer.Analysed[k] += v
+	}
+	for _, a := range tmp.Assumptions {
+		outer.assume(a)
+	}
+	outer.count("shared_obligations", n)
+}
+
+// keyMentions: keep obligations whose key or function mentions one of the names.
+func keyMentions(names ...string) func(o *Obligation) bool {
+	return func(o *Obligation) bool {
+		for _, n := range names {
+			if strings.Contains(o.Key, n) || strings.Contains(o.Func, n) {
+				return true
+			}
+		}
+		return false
+	}
+}
